@@ -355,6 +355,6 @@ var play = ev.NewCheck("C12", "playback",
 	"rapid: format-1 files with 1..5 tracks; 1..6 grid ticks recur in every track with 0..14 events each (so ticks are shared within and across tracks and the concatenation of the tracks is not ordered by time), off-grid notes, metas, sysex and tempo changes sprinkled in; resolution 960 with tempi making one tick 1..50 us, whole file <= ~25 ms; channel messages unique (id in channel/key/velocity); Play(out) or MultiPlay with explicit, default (-1) and missing port mappings; optional track selection; oracle on recording fake out ports (instant = time.Since(start) inside Send): every channel message of a selected, mapped track exactly once on its port, no meta event ever, per-track send order == file order, global order non-decreasing in scheduled time (exact tempo-map integral), no send before its scheduled time; sysex filtered from the comparison; non-trivial = >= 2 selected tracks, > 12 messages and a tick shared by >= 2 events of one track and by another track; distinct by case hash",
 	genCase, run)
 
-func TestPropPlayback(t *testing.T) { play.Rapid(t, 80, 2000) }
+func TestPropPlayback(t *testing.T) { play.Rapid(t, 150, 2000) }
 
 func TestReplay(t *testing.T) { ev.ReplayAll(t) }
